@@ -5,17 +5,14 @@ idle at the end and the order in which connections were closed are compared with
 import itertools
 
 from clientlib import run_call
-from common import Ctx, import_repo
+from common import FakeClock, Ctx, import_repo
 from faultrun import OPS, Scripted
 
 CLOCK = [1000.0]
 SCALE = 100         # the model counts time in ticks of 1/SCALE second (fractional pool_idle_timeout values)
 
 
-class FakeTimeMod:
-    @staticmethod
-    def time():
-        return CLOCK[0]
+FakeTimeMod = FakeClock(lambda: CLOCK[0])
 
 
 FAULTS = [
@@ -317,5 +314,35 @@ def main(argv):
         for b in bad[:5]:
             ctx.disagreement("composed Lean model HashClient∘PooledClient∘Client differs from the real HashClient(use_pooling=True)", b,
                              theorem="C09_hashpooled_pool_invariants")
+    # ---- overlapping callers (the statement speaks of every sequence of operations; callers of one PooledClient overlap in time): the real
+    #      ObjectPool under the deterministic scheduler of C08 (harness/sched.py), with an idle timeout (5) and calls that last longer than it
+    #      (`useLong`, 10).  Every schedule with at most one pre-emption (two in the thorough tier) at the line-level yield points of pool.py.
+    #      Judged: a connection is closed as idled-out only if it had really been available for longer than the timeout; once every call has
+    #      returned nothing is checked out. ---------------------------------------------------------------------------------------------------
+    import c08 as c08_mod
+    pmod = c08_mod.load_pool()
+    overlap_sets = [(["useLong"], ["useOk"]), (["useLong"], ["useLong"]), (["useOk", "useLong"], ["useOk"]), (["useLong", "useOk"], ["tick", "useOk"]),
+                    (["useLong"], ["useFail"]), (["useOk", "tick", "useLong"], ["useOk"]),
+                    # close() of the pooled client (ObjectPool.clear) by one caller while another one's call is in flight
+                    (["useOk"], ["clear"]), (["useLong"], ["clear"]), (["useOk", "useOk"], ["clear"]), (["useOk"], ["clear", "useOk"])]
+    for progs in overlap_sets:
+        programs = [list(p_) for p_ in progs]
+        for mx in (1, 2, 3):
+            s0, _, _ = c08_mod.run_schedule(pmod, mx, programs, (), idle=True)
+            npoints = min(s0.pos, 140)
+            for plan in c08_mod.plans(range(npoints), 2, 2 if (ctx.thorough and npoints <= 70) else 1):
+                sched_, viol_, _ = c08_mod.run_schedule(pmod, mx, programs, plan, idle=True)
+                ctx.case(("overlap", tuple(map(tuple, programs)), mx, plan))
+                ctx.count("overlapping-callers-schedules")
+                case = {"programs": programs, "max_pool_size": mx, "pool_idle_timeout": 5, "useLong_lasts": 10, "tick": 10, "plan": [list(x_) for x_ in plan],
+                        "trace_tail": [f"{t_}:{e_}" for t_, e_ in sched_.trace][-30:]}
+                for v_ in sched_.early_expiry:
+                    ctx.violation("overlapping callers: a healthy connection was closed and reopened instead of reused: " + v_, case, tags=["overlap", "early-expiry"])
+                for v_ in viol_:
+                    if "still checked out" in v_ or "deadlock" in v_ or "internal error" in v_:
+                        ctx.violation("overlapping callers: " + v_, case, tags=["overlap"])
+                    elif v_.endswith("was closed 0 times"):
+                        ctx.violation("overlapping callers: a healthy connection was dropped by the pool without being closed - it can never be reused, the next call opens another: "
+                                      + v_, case, tags=["overlap", "dropped-open"])
     ctx.assumptions = ["time is the patched pool clock (integer ticks); one call happens at one instant", "a connection = one successfully connected socket"]
     ctx.finish()
